@@ -78,6 +78,30 @@ def correspondence_and_oracle(ctx, rng, n):
                 ctx.violation("c20-group-count", "requested %d orifice groups, %d returned without an error (values %s...)"
                               % (ng, n_found, [round(v, 1) for v in desc[:6]]), values=vals, n_groups=ng, cutoff=cutoff, delta=delta)
             sizes = [int(np.sum(labels == i)) for i in sorted(set(labels))]
+        if status == "error":
+            # "or stops with an error when that is impossible": is there a cut-off that yields exactly the requested number of groups?
+            def count(c):
+                grp, n_ = [desc[0]], 1
+                for v in desc[1:]:
+                    if o._check_new_group(grp, v, c):
+                        grp, n_ = [], n_ + 1
+                    grp.append(v)
+                return n_
+            # (cut-offs the search can reach with its 1000 iterations: it walks up from the initial value in steps of `delta`, or
+            # restarts from a tenth of it; beyond that the error message rightly asks for other parameters)
+            reach = cutoff + 900 * delta
+            found = [c for c in np.geomspace(1e-7, 1.0, 600) if c <= reach and count(float(c)) == ng]
+            ctx.count("group_errors")
+            if found:
+                # wide enough to be met by the search (more than two steps of the cut-off), not a sliver between two ties
+                lo_, hi_ = min(found), max(found)
+                if hi_ - lo_ > 2.5 * delta:
+                    ctx.violation("c20-group-error-although-possible", "grouping stops with 'not converged' although every cut-off between "
+                                  "%.4g and %.4g gives exactly the %d requested groups (values %s, cutoff %g, delta %g)"
+                                  % (lo_, hi_, ng, [round(v, 2) for v in desc[:8]], cutoff, delta), values=vals, n_groups=ng,
+                                  cutoff=cutoff, delta=delta, window=[float(lo_), float(hi_)])
+                else:
+                    ctx.count("group_errors_with_a_sliver_window")
         reqs.append("group 1 %d %d %d | %s" % (ng, bits(cutoff), bits(delta), " ".join(str(bits(v)) for v in desc)))
         impl.append((status, sizes, style, ng))
         if k < 3:
